@@ -63,20 +63,31 @@ Section Ins.
     clear Hb.
     destruct (k_notnull g && is_null (snd (fst r))); try discriminate.
     destruct (negb (check_ok g (snd (fst r)))); try discriminate.
-    destruct (tx_get c t0 k) as [found t1] eqn:Eg.
+    destruct (tx_get c t0 k) as [found0 t1] eqn:Eg.
     assert (J1 : J t1).
     { eapply J_mono; [exact J0|]. pose proof (tx_get_mono c t0 k) as M. rewrite Eg in M; exact M. }
+    remember (found0 && negb match alookup k (t_rows t1) with Some (true, _) => true | _ => false end) as found eqn:Efound.
     destruct (negb found && me); try discriminate.
     assert (Hw : found = false -> forall reuse, do_upsert g fx c t1 k (snd (fst r)) (snd r) reuse = Ok t' -> J t').
-    { intros -> reuse Hd. apply tx_get_false in Eg as [Hl Hv].
-      destruct J0 as [P0 _]. rewrite P0 in Hv.
-      rewrite (vers_at_all _ _ _ (cwf_lookup c k W)) in Hv by lia.
+    { intros Hf reuse Hd.
+      (* either the key is not live in the committed state, or this transaction already wrote it *)
+      assert (Hk : forall rr, ~ In (k, rr) (live_rows c)).
+      { destruct found0.
+        - simpl in Efound. rewrite Hf in Efound.
+          destruct (alookup k (t_rows t1)) as [[[|] r0]|] eqn:Ea; simpl in Efound; try discriminate.
+          intros rr. apply (proj2 J1). apply alookup_in in Ea.
+          change k with (fst (k, (true, r0))). apply in_map; auto.
+        - apply tx_get_false in Eg as [Hl Hv].
+          destruct J0 as [P0 _]. rewrite P0 in Hv.
+          rewrite (vers_at_all _ _ _ (cwf_lookup c k W)) in Hv by lia.
+          intros rr Hlive. apply live_rows_lookup in Hlive; [|apply (w_nodup c W)].
+          destruct Hlive as (v & vs & E & Hd' & _). rewrite E in Hv. congruence. }
       split.
       - unfold psnap_ts. rewrite (do_upsert_psnap _ _ _ _ _ _ _ _ _ Hd). apply (proj1 J1).
       - apply do_upsert_rows in Hd as (v' & s' & _ & _ & Hr & _). rewrite Hr.
         intros z Hz rr Hlive. apply aset_keys in Hz as [->|Hz]; [|eapply (proj2 J1); eauto].
-        apply live_rows_lookup in Hlive; [|apply (w_nodup c W)].
-        destruct Hlive as (v & vs & E & Hd' & _). rewrite E in Hv. congruence. }
+        eapply Hk; eauto. }
+    clear Efound.
     destruct Hm as [->| ->]; destruct found; try discriminate; eauto.
     inversion H; subst; auto.
   Qed.
